@@ -23,7 +23,7 @@ def _alarm(signum, frame):
 
 class RawWorld:
     def __init__(self, server_writes=0, pause=False, window=None,
-                 max_pktsize=None):
+                 max_pktsize=None, quirk='none'):
         self.loop = new_loop()
         self.loop.max_iterations = 200000
         self.server_writes = server_writes
@@ -76,10 +76,16 @@ class RawWorld:
             kw['window'] = window
         if max_pktsize is not None:
             kw['max_pktsize'] = max_pktsize
+        rkw = {}
+        if quirk == 'dropbear_zlib':
+            # a peer that says it is dropbear, with compression in effect
+            kw['compression_algs'] = ['zlib']
+            rkw = dict(client_version='dropbear_2022.83',
+                       compression_algs=['zlib'])
 
         async def go():
             self.acc = await asyncssh.listen('127.0.0.1', 2222, **kw)
-            self.raw = await rawpeer.raw_connect('127.0.0.1', 2222)
+            self.raw = await rawpeer.raw_connect('127.0.0.1', 2222, **rkw)
             # none auth (server needs no auth)
             self.raw.raw_send(50, rawpeer.userauth_request('u', 'none'))
 
@@ -138,12 +144,16 @@ def exec_request(w, peer_chan):
                   + String(b'x'))
 
 
-def extreme_size_cases(values=(0, 1, 2, 0xffffffff), nbytes=600):
+def extreme_size_cases(values=(0, 1, 2, 0xffffffff), nbytes=600,
+                       quirks=('none',), pkts=None):
     """A peer advertising extreme window / max packet size values; the server
-    writes nbytes.  Yields (case, violations list)."""
-    for win in values:
-        for pkt in values:
-            w = RawWorld(server_writes=nbytes)
+    writes nbytes.  quirks: what the peer says it is ('dropbear_zlib': the
+    version string names dropbear and compression is on, which makes asyncssh
+    lower the packet size by one).  Yields (case, violations list)."""
+    for quirk, win, pkt in [(q, w_, p_) for q in quirks for w_ in values
+                            for p_ in (pkts or values)]:
+        if True:
+            w = RawWorld(server_writes=nbytes, quirk=quirk)
             bad = []
             try:
                 out, info = open_session(w, win, pkt)
@@ -163,6 +173,8 @@ def extreme_size_cases(values=(0, 1, 2, 0xffffffff), nbytes=600):
                         if n > pkt:
                             bad.append(f'C08 NeverExceedPktSize: data packet '
                                        f'of {n} bytes > advertised {pkt}')
+                        if n == 0 and not any('empty data' in b for b in bad):
+                            bad.append('C08/C10 empty data packet sent')
                     if sent > win:
                         bad.append(f'C08 NeverExceedPeerWindow: {sent} bytes '
                                    f'sent into a window of {win}')
@@ -186,7 +198,11 @@ def extreme_size_cases(values=(0, 1, 2, 0xffffffff), nbytes=600):
                                str(w.loop.exceptions[0].get('exception')))
             finally:
                 w.stop()
-            yield {'window': win, 'pktsize': pkt}, bad
+            yield {'window': win, 'pktsize': pkt, 'quirk': quirk}, bad
+
+
+def extreme_size_cases_one(quirk, win, pkt, nbytes=600):
+    return extreme_size_cases((win,), nbytes, (quirk,), pkts=(pkt,))
 
 
 def excess_cases(window=100):
